@@ -4,9 +4,11 @@ package nsqadmin
 
 import (
 	"encoding/json"
+	"errors"
 	"net/http"
 
 	"github.com/julienschmidt/httprouter"
+	"github.com/nsqio/nsq/internal/http_api"
 	"github.com/nsqio/nsq/internal/verifrt"
 )
 
@@ -23,6 +25,14 @@ type vIdentity struct {
 
 var vHeaderNames = []string{"X-Forwarded-User", "X-Auth-Request-Email", "x-user"}
 
+// names and identities are ASCII (any of the 128 values, control characters included); bytes
+// >= 0x80 would only exercise the standard library's UTF-8 tables: outside the claim
+func vAssumeASCII(s string) {
+	for i := 0; i < len(s); i++ {
+		verifrt.Assume(s[i] < 0x80)
+	}
+}
+
 // vIdentityCase: admin list of 0..maxAdmins names (1..nameLen bytes each, any bytes), one of the
 // first nHeaders ACL header names, and the request's identity: ACL header absent / present with
 // any value of 0..nameLen bytes (empty, an admin's name, a look-alike, anything else) / an
@@ -34,9 +44,16 @@ func vIdentityCase(maxAdmins, nameLen, nHeaders int) *vIdentity {
 		a := verifrt.String("admin", nameLen)
 		// an empty admin name is a configuration corner outside the claim (see report)
 		verifrt.Assume(len(a) > 0)
+		vAssumeASCII(a)
 		id.admins = append(id.admins, a)
 	}
-	id.header = vHeaderNames[verifrt.Choice("aclHeader", nHeaders)]
+	hi := verifrt.Choice("aclHeader", nHeaders)
+	id.header = vHeaderNames[hi]
+	// another header a proxy might set: one of the other well-known names when several are in play
+	other := "X-Not-The-Acl-Header"
+	if nHeaders > 1 {
+		other = vHeaderNames[(hi+1)%nHeaders]
+	}
 	id.hdr = http.Header{}
 	id.hdr.Set("User-Agent", "verif")
 	nKinds := 3
@@ -48,6 +65,7 @@ func vIdentityCase(maxAdmins, nameLen, nHeaders int) *vIdentity {
 	case 0:
 	case 1:
 		id.user = verifrt.String("user", nameLen)
+		vAssumeASCII(id.user)
 		id.hdr.Set(id.header, id.user)
 		for _, a := range id.admins {
 			if a == id.user {
@@ -56,7 +74,7 @@ func vIdentityCase(maxAdmins, nameLen, nHeaders int) *vIdentity {
 		}
 	case 2:
 		// the right name in the wrong place is not an identity in the ACL header
-		id.hdr.Set("X-Not-The-Acl-Header", id.admins[0])
+		id.hdr.Set(other, id.admins[0])
 	}
 	return id
 }
@@ -240,4 +258,294 @@ func verifC17IdentityDecision() {
 	} else {
 		verifrt.Reach("carried-out-second-admin", len(id.admins) > 1 && id.kind == 1 && id.user == id.admins[1] && id.user != id.admins[0])
 	}
+}
+
+// ---- the route table itself ----
+
+type vRoute struct {
+	method  string
+	pattern string
+	handle  httprouter.Handle
+}
+
+// vRoutes runs the real NewHTTPServer. Under gosmt (*httprouter.Router).Handle is redirected to
+// a recorder, so the table (method, pattern, decorated handler) is whatever the current source
+// registers. The chosen route's method and pattern travel to a native replay inside the model
+// (fixed-size strings constrained to the recorded text); natively the decorated handler is
+// fetched from the real router with Router.Lookup.
+func vRoutes(n *NSQAdmin, base string) (*httpServer, vRoute, map[string]string) {
+	vals := map[string]string{"topic": "t", "channel": "c", "node": "nsqd0:4151", "opt": "log_level", "asset": "x.js"}
+	const padM, padP = 8, 40
+	names := func(method string) {
+		// read-only views are asked about the topic/channel the cluster has; actions get any name
+		if method != "GET" {
+			vals["topic"], vals["channel"] = vName("topic"), vName("channel")
+		}
+	}
+	if verifrt.Symbolic() {
+		var table []vRoute
+		verifrt.Stub("(*github.com/julienschmidt/httprouter.Router).Handle", func(r *httprouter.Router, method, path string, h httprouter.Handle) {
+			table = append(table, vRoute{method, path, h})
+		})
+		s := NewHTTPServer(n)
+		vCheckTable(table, base)
+		rt := table[verifrt.Choice("route", len(table))]
+		m, p := verifrt.StringN("routeMethod", padM), verifrt.StringN("routePattern", padP)
+		wantM, wantP := vPad(rt.method, padM), vPad(rt.pattern, padP)
+		verifrt.Assume(m == wantM)
+		verifrt.Assume(p == wantP)
+		names(rt.method)
+		return s, rt, vals
+	}
+	s := NewHTTPServer(n)
+	verifrt.Choice("route", 1)
+	rt := vRoute{method: vUnpad(verifrt.StringN("routeMethod", padM)), pattern: vUnpad(verifrt.StringN("routePattern", padP))}
+	names(rt.method)
+	_, path := vParams(rt.pattern, vals)
+	rt.handle, _, _ = s.router.(*httprouter.Router).Lookup(rt.method, path)
+	return s, rt, vals
+}
+
+func vPad(s string, n int) string {
+	for len(s) < n {
+		s += "\x00"
+	}
+	return s
+}
+
+func vUnpad(s string) string {
+	for len(s) > 0 && s[len(s)-1] == 0 {
+		s = s[:len(s)-1]
+	}
+	return s
+}
+
+// vCheckTable: every action the statement names is routable (reference list vActions).
+func vCheckTable(table []vRoute, base string) {
+	for _, a := range vActions {
+		found := false
+		for _, r := range table {
+			if r.method == a.method && r.pattern == base+a.pattern {
+				found = true
+			}
+		}
+		verifrt.Assert(found, "statement-action-has-a-route")
+	}
+	verifrt.Assert(len(table) < 64, "route-table-fits-harness")
+}
+
+func vHasPrefix(s, p string) bool { return len(s) >= len(p) && s[:len(p)] == p }
+
+// Every route the current source registers, by its method:
+//   not GET, not /config (state-changing): without an admin identity the decorated handler answers
+//     403 and nothing reaches the cluster; as admin / with no admin list it is not 403, and when the
+//     route is one of the statement's actions that action is carried out;
+//   GET /api/... (read-only views): never 403 whatever the identity, and no state-changing
+//     request reaches the cluster.
+// A handler that loses its identity check, or a new unguarded mutating route, fails here.
+func VerifC17_RouteTable() { verifrt.Atomic(verifC17RouteTable) }
+
+func verifC17RouteTable() {
+	id := vIdentityCase(verifrt.Bound("admins", 1, 2), verifrt.Bound("nameLen", 1, 2), 1)
+	u := vNewCluster(1)
+	defer u.close()
+	o := vOptions(u)
+	id.apply(o)
+	o.AllowConfigFromCIDR = ""
+	base := ""
+	if verifrt.Choice("basePath", verifrt.Bound("basePaths", 1, 2)) == 1 {
+		base = "/nsq"
+		o.BasePath = base
+	}
+	if !verifrt.Symbolic() {
+		o.GraphiteURL = "http://" + u.lookupds[0]
+	}
+	verifrt.Stub("(*github.com/nsqio/nsq/internal/http_api.Client).GETV1", func(c *http_api.Client, endpoint string, v interface{}) error {
+		u.rec("GETV1", "", "", "", nil, nil)
+		return errors.New("verif: graphite is not part of the cluster")
+	})
+	s, rt, vals := vRoutes(vAdmin(o), base)
+	_ = s
+	if rt.handle == nil {
+		verifrt.Assert(false, "route-not-found-natively")
+		return
+	}
+	vals["node"] = u.nodeName()
+	ps, path := vParams(rt.pattern, vals)
+	rel := rt.pattern[len(base):] // the route relative to the base path
+	isConfig := vHasPrefix(rel, "/config")
+	isAPI := vHasPrefix(rel, "/api/")
+	if rt.method == "GET" && !isAPI {
+		// HTML pages, static assets, /ping, GET /config (VerifC17_Config): not run here
+		return
+	}
+	if isConfig {
+		return
+	}
+	// does the route carry one of the statement's actions? (then send that action's body)
+	var body []byte
+	act := -1
+	var cands []int
+	for i, a := range vActions {
+		if a.method == rt.method && a.pattern == rel {
+			cands = append(cands, i)
+		}
+	}
+	if len(cands) > 0 {
+		act = cands[verifrt.Choice("bodyAction", len(cands))]
+		a := vActions[act]
+		switch {
+		case a.kind == "CreateTopicChannel":
+			body, _ = json.Marshal(struct {
+				Topic   string `json:"topic"`
+				Channel string `json:"channel"`
+			}{vals["topic"], vals["channel"]})
+		case a.kind == "TombstoneNodeForTopic":
+			body, _ = json.Marshal(struct {
+				Topic string `json:"topic"`
+			}{vals["topic"]})
+		case a.action != "":
+			body, _ = json.Marshal(struct {
+				Action string `json:"action"`
+			}{a.action})
+		}
+	} else if rt.method != "GET" {
+		body = verifrt.Bytes("junk", 2)
+	}
+	if verifrt.Symbolic() {
+		// the URL is only logged by the Log decorator (the handlers get their arguments from ps);
+		// a concrete stand-in keeps net/url's escaping of the symbolic names out of the run
+		path = rt.pattern
+	}
+	req := vRequest(rt.method, path, id.hdr, body, "10.1.2.3:5555")
+	if rel == "/api/graphite" {
+		req.URL.RawQuery = "metric=rate&target=x"
+	}
+	w := &vWriter{}
+	rt.handle(w, req, ps)
+	verifrt.Observe("status", w.status)
+	verifrt.Assert(w.status != 0, "route-answers")
+
+	if rt.method == "GET" {
+		verifrt.Assert(w.status != 403, "read-only-view-never-forbidden")
+		verifrt.Assert(u.mutations() == 0, "read-only-view-changes-nothing")
+		verifrt.Reach("read-only-view-as-non-admin", id.mustForbid() && w.status == 200)
+		return
+	}
+	if id.mustForbid() {
+		verifrt.Assert(w.status == 403, "mutating-route-without-admin-identity-is-403")
+		verifrt.Assert(u.total() == 0, "forbidden-route-reaches-no-upstream")
+		verifrt.Reach("mutating-route-forbidden", true)
+		return
+	}
+	verifrt.Assert(w.status != 403, "mutating-route-open-to-admin")
+	if act >= 0 {
+		a := vActions[act]
+		wantChannel, wantNode := "", ""
+		switch a.kind {
+		case "CreateTopicChannel", "DeleteChannel", "PauseChannel", "UnPauseChannel", "EmptyChannel":
+			wantChannel = vals["channel"]
+		case "TombstoneNodeForTopic":
+			wantNode = vals["node"]
+		}
+		verifrt.Assert(w.status == 200, "routed-action-succeeds")
+		verifrt.Assert(u.did(a.kind, vals["topic"], wantChannel, wantNode), "routed-action-carried-out")
+		verifrt.Reach("routed-action-as-admin", len(id.admins) > 0)
+	}
+}
+
+// ---- fan-out: the real clusterinfo below the handlers ----
+
+// Open nsqadmin (no admin list) or an admin; L nsqlookupds x N nsqds (or --nsqd-http-address
+// mode); optionally ONE upstream whose POSTs fail. Through the real handler and the real
+// clusterinfo (only the HTTP client is replaced), every relevant upstream gets the action:
+//   create topic            -> /topic/create on every nsqlookupd
+//   create topic + channel  -> also /channel/create on every nsqlookupd and every nsqd producing the topic
+//   delete topic / channel  -> /topic/delete | /channel/delete on every nsqlookupd and every producing nsqd
+//   pause/unpause/empty     -> /topic/<a> | /channel/<a> on every producing nsqd
+//   tombstone node          -> /topic/tombstone on every nsqlookupd and /topic/delete on that node
+// and a failing upstream does not keep the others from being asked. Without an admin identity
+// nothing at all is sent (same check as VerifC17_MutatingHandlers, on the HTTP surface).
+func VerifC17_FanOut() { verifrt.Atomic(verifC17FanOut) }
+
+func verifC17FanOut() {
+	a := vActions[verifrt.Choice("action", len(vActions))]
+	maxUp := verifrt.Bound("upstreams", 2, 3)
+	nNsqd := 1 + verifrt.Choice("nsqds", maxUp)
+	nLookupd := 1 + verifrt.Choice("lookupds", maxUp)
+	if a.kind != "CreateTopicChannel" && a.kind != "TombstoneNodeForTopic" && verifrt.Choice("nsqdMode", 2) == 1 {
+		nLookupd = 0
+	}
+	u := vNewClusterHTTP(nLookupd, nNsqd)
+	defer u.close()
+	all := append(append([]string{}, u.lookupdAddrs...), u.nsqdAddrs...)
+	if f := verifrt.Choice("failing", len(all)+1); f > 0 {
+		u.failPost = all[f-1]
+	}
+	// identity: open, admin, or refused
+	o := vOptions(u)
+	who := verifrt.Choice("who", 3)
+	hdr := http.Header{}
+	if who > 0 {
+		o.AdminUsers = []string{"root"}
+	}
+	if who == 1 {
+		hdr.Set(o.ACLHTTPHeader, "root")
+	}
+	s := vServer(vAdmin(o))
+	topic, channel, node := u.topic, u.channel, u.nodeName()
+	if a.kind == "CreateTopicChannel" && verifrt.Choice("withChannel", 2) == 0 {
+		channel = ""
+	}
+	id := &vIdentity{hdr: hdr}
+	req, ps := vActionRequest(a, id, topic, channel, node, false)
+	w := &vWriter{}
+	_, err := vCallHandler(s, a, w, req, ps)
+	code := vErrCode(err)
+	verifrt.Observe("code", code)
+	if who == 2 {
+		verifrt.Assert(code == 403, "fanout-no-admin-identity-is-403")
+		verifrt.Assert(u.total() == 0, "fanout-forbidden-sends-nothing")
+		verifrt.Reach("fanout-forbidden", true)
+		return
+	}
+	verifrt.Assert(code != 403, "fanout-admin-not-forbidden")
+	onLookupds := func(path, ch, nd string) {
+		for _, l := range u.lookupdAddrs {
+			verifrt.Assert(u.posted(l, path, topic, ch, nd), "action-reaches-every-nsqlookupd")
+		}
+	}
+	onNsqds := func(path, ch string) {
+		for _, n := range u.nsqdAddrs {
+			verifrt.Assert(u.posted(n, path, topic, ch, ""), "action-reaches-every-producing-nsqd")
+		}
+	}
+	switch a.kind {
+	case "CreateTopicChannel":
+		onLookupds("/topic/create", "", "")
+		if channel != "" {
+			onLookupds("/channel/create", channel, "")
+			onNsqds("/channel/create", channel)
+		}
+	case "DeleteTopic":
+		onLookupds("/topic/delete", "", "")
+		onNsqds("/topic/delete", "")
+	case "DeleteChannel":
+		onLookupds("/channel/delete", channel, "")
+		onNsqds("/channel/delete", channel)
+	case "TombstoneNodeForTopic":
+		onLookupds("/topic/tombstone", "", node)
+		verifrt.Assert(u.posted(node, "/topic/delete", topic, "", ""), "tombstoned-node-drops-the-topic")
+	case "PauseTopic", "UnPauseTopic", "EmptyTopic":
+		onNsqds("/topic/"+a.action, "")
+	default:
+		onNsqds("/channel/"+a.action, channel)
+	}
+	if u.failPost == "" {
+		verifrt.Assert(code == 200, "fanout-all-up-is-200")
+	}
+	verifrt.Reach("fanout-two-lookupds-two-nsqds", nLookupd == 2 && nNsqd == 2)
+	verifrt.Reach("fanout-nsqd-mode", nLookupd == 0 && nNsqd == 2)
+	verifrt.Reach("fanout-with-failing-lookupd", nLookupd == 2 && u.failPost == u.lookupdAddrs[0])
+	verifrt.Reach("fanout-with-failing-nsqd", nNsqd == 2 && u.failPost == u.nsqdAddrs[0])
 }
